@@ -22,6 +22,17 @@ CONFIGS_QUICK = [('gnu++17', ())]
 CONFIGS_THOROUGH = [('gnu++17', ()), ('gnu++11', ())]   # -DHAS_STRPTIME=0 does not compile against glibc (ambiguous strptime)
 
 
+# which properties each group of refactorings (by the area of code it rewrites) is swept against
+PRESERVING = {
+    'RF1': ('C13', 'C14', 'C15', 'C19', 'C20'),             # impl / lookup: loader, cache, UTC singleton
+    'RF2': ('C01', 'C11', 'C12', 'C14', 'C19'),             # Load, Header, Decode*, GetTransitionType, EquivTransitions
+    'RF3': ('C01', 'C10', 'C11', 'C12', 'C14'),             # ExtendTransitions, BreakTime, MakeTime, TimeLocal, Next/PrevTransition
+    'RF4': ('C12', 'C15', 'C16', 'C20'),                    # posix and fixed-offset parsers
+    'RF5': ('C08',),                                        # format()
+    'RF6': ('C04', 'C09', 'C12', 'C16', 'C17'),             # parse() and civil_time_detail.h
+}
+
+
 def run_property(prop, tier, only=None):
     mod = importlib.import_module('sa.rules.' + prop.lower())
     configs = CONFIGS_THOROUGH if tier == 'thorough' else CONFIGS_QUICK
@@ -68,9 +79,21 @@ def variant_sweep(prop):
     for (p_, name, expect, file_, pat, repl) in VV.V:
         if p_ == prop:
             jobs.append(('variant:' + name, expect, ('regex', file_, pat, repl)))
-    for d in sorted(glob.glob(os.path.join(VERIF, 'seeded', prop + '*'))):
-        if os.path.exists(os.path.join(d, 'patch.diff')):
+    import json as _json
+    for d in sorted(glob.glob(os.path.join(VERIF, 'seeded', '*'))):
+        mp = os.path.join(d, 'meta.json')
+        if not (os.path.exists(os.path.join(d, 'patch.diff')) and os.path.exists(mp)):
+            continue
+        det = (_json.load(open(mp)).get('detected_by') or {})
+        rules = list(det.get('rules') or ()) + list(det.get('also') or ())
+        # a kept change is swept against every property one of whose rules is recorded as reporting it
+        if any(r.startswith(prop + '-') for r in rules):
             jobs.append(('seeded:' + os.path.basename(d), 'violation', ('patch', os.path.join(d, 'patch.diff'))))
+    # behaviour-preserving refactorings (written by independent agents): the check must stay silent
+    for d in sorted(glob.glob(os.path.join(VERIF, 'preserving', '*'))):
+        grp = os.path.basename(d)[:3]
+        if prop in PRESERVING.get(grp, ()) and os.path.exists(os.path.join(d, 'patch.diff')):
+            jobs.append(('preserving:' + os.path.basename(d), 'silent', ('patch', os.path.join(d, 'patch.diff'))))
 
     def one(job):
         name, expect, how = job
